@@ -449,6 +449,35 @@ func handleDownload(c *Client, r *Response) (err error) {
 	return
 }
 
+// parseURLKeepEscapes is url.Parse, except that the percent-escapes written in the path
+// survive URL.EscapedPath (and so URL.String and URL.RequestURI). EscapedPath discards
+// RawPath as soon as it holds one byte that has to be escaped (a blank, a non-ASCII byte,
+// an unfilled "{placeholder}", ...) and re-encodes the decoded Path instead, which turns
+// the %2F of an escaped path parameter into a real path separator. Percent-encoding exactly
+// those bytes keeps RawPath a valid encoding of Path.
+func parseURLKeepEscapes(rawURL string) (*url.URL, error) {
+	u, err := url.Parse(rawURL)
+	if err != nil || u.RawPath == "" {
+		return u, err
+	}
+	const upperhex = "0123456789ABCDEF"
+	var buf strings.Builder
+	for i := 0; i < len(u.RawPath); i++ {
+		c := u.RawPath[i]
+		switch {
+		case 'a' <= c && c <= 'z', 'A' <= c && c <= 'Z', '0' <= c && c <= '9',
+			strings.IndexByte("-_.~$&+,/:;=@!'()*[]%", c) >= 0:
+			buf.WriteByte(c)
+		default:
+			buf.WriteByte('%')
+			buf.WriteByte(upperhex[c>>4])
+			buf.WriteByte(upperhex[c&15])
+		}
+	}
+	u.RawPath = buf.String()
+	return u, nil
+}
+
 // generate URL
 func parseRequestURL(c *Client, r *Request) error {
 	tempURL := r.RawURL
@@ -464,13 +493,13 @@ func parseRequestURL(c *Client, r *Request) error {
 	}
 
 	// Parsing request URL
-	reqURL, err := url.Parse(tempURL)
+	reqURL, err := parseURLKeepEscapes(tempURL)
 	if err != nil {
 		return err
 	}
 
 	if reqURL.Scheme == "" && len(c.scheme) > 0 { // set scheme if missing
-		reqURL, err = url.Parse(c.scheme + "://" + tempURL)
+		reqURL, err = parseURLKeepEscapes(c.scheme + "://" + tempURL)
 		if err != nil {
 			return err
 		}
@@ -484,7 +513,7 @@ func parseRequestURL(c *Client, r *Request) error {
 			tempURL = "/" + tempURL
 		}
 
-		reqURL, err = url.Parse(c.BaseURL + tempURL)
+		reqURL, err = parseURLKeepEscapes(c.BaseURL + tempURL)
 		if err != nil {
 			return err
 		}
